@@ -128,9 +128,101 @@ func run(r *hlib.Run, ts []tun, reg []string, regErr bool, fresh []string) {
 	}
 }
 
+// runRm: the same sync, but at the RPC (point,k) of the sync the real UnpublishTunnel / ReleaseTunnel
+// is called for `host` on the same client (re-entrantly from the scripted service, i.e. exactly while
+// SyncConfigTunnels waits for that answer).
+func runRm(r *hlib.Run, ts []tun, reg []string, regErr bool, fresh []string, point string, k int, host string, release bool) {
+	in := make([]client.Tunnel, len(ts))
+	for i, t := range ts {
+		in[i] = client.Tunnel{Target: t.target, Hostname: t.host}
+	}
+	var out, mid []client.Tunnel
+	var calls int
+	var pub []string
+	var fired, rmErr bool
+	panicked := false
+	func() {
+		defer func() {
+			if e := recover(); e != nil {
+				panicked = true
+			}
+		}()
+		out, calls, pub, fired, mid, rmErr = client.VerifC43SyncRm(path, in, reg, regErr, fresh, point, k, host, release)
+	}()
+	regTok := encStrs(reg)
+	if regErr {
+		regTok = "!"
+	}
+	fr := make([]string, len(fresh))
+	for i, f := range fresh {
+		if f == "" {
+			fr[i] = "!"
+		} else {
+			fr[i] = hlib.HexS(f)
+		}
+	}
+	pt := "r"
+	if point != "r" {
+		pt = point + strconv.Itoa(k)
+	}
+	kind := "u"
+	if release {
+		kind = "l"
+	}
+	lhs := "syncrm " + encTunnels(ts) + " " + regTok + " " + encList(fr) + " " + pt + " " + hlib.HexS(host) + " " + kind
+	conv := func(xs []client.Tunnel) []tun {
+		o := make([]tun, len(xs))
+		for i, t := range xs {
+			o[i] = tun{t.Target, t.Hostname}
+		}
+		return o
+	}
+	if panicked {
+		r.Emit(lhs, "panic 0 _ 0 -")
+	} else {
+		f, m := "0", "-"
+		if fired {
+			f, m = "1", encTunnels(conv(mid))
+			if rmErr {
+				f = "E"
+			}
+		}
+		r.Emit(lhs, encTunnels(conv(out))+" "+strconv.Itoa(calls)+" "+encStrs(pub)+" "+f+" "+m)
+	}
+	idx := -1
+	for i, t := range ts {
+		if t.host == host {
+			idx = i
+			break
+		}
+	}
+	key := ""
+	if fired && idx >= 0 {
+		key = lhs
+	}
+	r.Case(key)
+	r.Count("rm-point:" + point)
+	switch {
+	case !fired:
+		r.Count("rm:point-not-reached")
+	case idx < 0:
+		r.Count("rm:hostname-not-configured")
+	case idx == len(ts)-1:
+		r.Count("rm:last-tunnel")
+	default:
+		r.Count("rm:inner-tunnel")
+		if ts[len(ts)-1].host != "" {
+			r.Count("rm:inner-tunnel,last-named")
+		}
+	}
+	if regErr {
+		r.Count("rm:registered-error")
+	}
+}
+
 func main() {
 	r := hlib.Start()
-	r.Rule = "case = (tunnel list, registered hostnames | error, GenerateHostname script); non-trivial = at least one tunnel needs a name and the registered list is known; tunnels 0..7 with/without target and hostname, configured duplicates, dotted custom names; registered sets overlapping configured names, dotted, occasionally duplicated; scripts mostly new names; failing requests (single, early, fail-from-k, flaky, script too short) are inside the quantifier: distinctness and 'unnamed only after a failed request' are judged on them; colliding generated names / duplicated registered lists are outside (only the unconditional clauses are judged)"
+	r.Rule = "case = (tunnel list, registered hostnames | error, GenerateHostname script); non-trivial = at least one tunnel needs a name and the registered list is known; tunnels 0..7 with/without target and hostname, configured duplicates, dotted custom names; registered sets overlapping configured names, dotted, occasionally duplicated; scripts mostly new names; failing requests (single, early, fail-from-k, flaky, script too short) are inside the quantifier: distinctness and 'unnamed only after a failed request' are judged on them; colliding generated names / duplicated registered lists are outside (only the unconditional clauses are judged); second family (syncrm): the same inputs plus ONE UnpublishTunnel/ReleaseTunnel of a (mostly configured) hostname called on the same client while the sync waits for RegisteredHostnames / the k-th GenerateHostname / the k-th PublishTunnel; non-trivial = the removal ran and hit a configured tunnel; the outcome (configuration, published hostnames) is judged by the statement: no hostname on more tunnels / published more often than configured, no tunnel duplicated or lost"
 	rng := hlib.NewRng(r.Seed)
 	dir, err := os.MkdirTemp(".", "c43cfg")
 	if err != nil {
@@ -141,7 +233,7 @@ func main() {
 
 	if r.Replay != "" {
 		for _, t := range r.ReplayLines() {
-			if t[0] != "sync" || len(t) < 4 {
+			if (t[0] != "sync" && t[0] != "syncrm") || len(t) < 4 {
 				continue
 			}
 			var ts []tun
@@ -164,6 +256,14 @@ func main() {
 					fresh = append(fresh, string(hlib.UnHex(it)))
 				}
 			}
+			if t[0] == "syncrm" && len(t) >= 7 {
+				point, k := t[4][:1], 0
+				if len(t[4]) > 1 {
+					k, _ = strconv.Atoi(t[4][1:])
+				}
+				runRm(r, ts, reg, regErr, fresh, point, k, string(hlib.UnHex(t[5])), t[6] == "l")
+				continue
+			}
 			run(r, ts, reg, regErr, fresh)
 		}
 		r.Finish()
@@ -174,9 +274,9 @@ func main() {
 	custom := []string{"a.example.com", "bastion.custom.dev", "h1.example.com", "x.y"}
 	targets := []string{"tcp://127.0.0.1:22", "http://127.0.0.1:8080", "https://10.0.0.1", "unix:///tmp/s.sock", "tcp://127.0.0.1:3306"}
 
-	gen := func() {
+	mk := func() (ts []tun, reg []string, regErr bool, fresh []string) {
 		n := rng.Intn(8)
-		ts := make([]tun, n)
+		ts = make([]tun, n)
 		for i := range ts {
 			if !rng.Chance(15) {
 				ts[i].target = hlib.Pick(rng, targets)
@@ -192,7 +292,6 @@ func main() {
 				}
 			}
 		}
-		var reg []string
 		for _, h := range auto {
 			if rng.Chance(45) {
 				reg = append(reg, h)
@@ -225,8 +324,8 @@ func main() {
 		if rng.Chance(2) {
 			reg = append(reg, "") // empty registered name
 		}
-		regErr := rng.Chance(4)
-		fresh := make([]string, n+1)
+		regErr = rng.Chance(4)
+		fresh = make([]string, n+1)
 		for i := range fresh {
 			fresh[i] = "gen" + strconv.Itoa(i)
 		}
@@ -256,7 +355,39 @@ func main() {
 			}
 			r.Count("fresh:flaky")
 		}
+		return
+	}
+	gen := func() {
+		ts, reg, regErr, fresh := mk()
 		run(r, ts, reg, regErr, fresh)
+	}
+	// a removal (UnpublishTunnel / ReleaseTunnel from the UI / control API) arriving while the sync
+	// waits for one of its RPCs: mostly of a configured hostname (any position, the inner ones matter:
+	// the later tunnels move up in the live configuration), sometimes of an unknown or the empty one
+	genRm := func() {
+		ts, reg, regErr, fresh := mk()
+		var named []string
+		for _, t := range ts {
+			if t.host != "" {
+				named = append(named, t.host)
+			}
+		}
+		host := hlib.Pick(rng, auto)
+		switch {
+		case len(named) > 0 && !rng.Chance(12):
+			host = named[rng.Intn(len(named))]
+		case rng.Chance(25):
+			host = ""
+		}
+		point, k := "r", 0
+		switch rng.Intn(5) {
+		case 0, 1:
+		case 2:
+			point, k = "g", rng.Intn(3)
+		default:
+			point, k = "p", rng.Intn(max(1, len(ts)))
+		}
+		runRm(r, ts, reg, regErr, fresh, point, k, host, rng.Chance(40))
 	}
 	// fixed boundary cases first
 	run(r, nil, nil, false, nil)
@@ -277,6 +408,26 @@ func main() {
 	}
 	for i := 0; i < n; i++ {
 		gen()
+	}
+	// removal during the sync: fixed shapes first (first / middle / last tunnel removed, with and
+	// without tunnels still waiting for a name, at each kind of RPC), then random
+	abc := []tun{{"tcp://a:1", "h1"}, {"tcp://b:1", "h2"}, {"tcp://c:1", "h3"}}
+	pend := []tun{{"tcp://a:1", "h1"}, {"tcp://b:1", ""}, {"tcp://c:1", "h3"}, {"tcp://d:1", ""}}
+	for _, h := range []string{"h1", "h2", "h3", "zeta", ""} {
+		runRm(r, abc, []string{"h1", "h2", "h3"}, false, nil, "r", 0, h, false)
+		runRm(r, abc, []string{"h1", "h2", "h3"}, false, nil, "p", 1, h, true)
+		runRm(r, pend, []string{"h1", "h3", "q"}, false, []string{"gen0", "gen1"}, "r", 0, h, false)
+		runRm(r, pend, []string{"h1", "h3", "q"}, false, []string{"gen0", "gen1"}, "g", 0, h, true)
+		runRm(r, pend, []string{"h1", "h3"}, false, []string{"gen0", ""}, "g", 1, h, false)
+		runRm(r, pend, []string{"h1", "h3", "q"}, false, []string{"gen0"}, "p", 2, h, false)
+		runRm(r, abc, nil, true, nil, "r", 0, h, false)
+	}
+	m := 3_000
+	if r.Thorough() {
+		m = 50_000
+	}
+	for i := 0; i < m; i++ {
+		genRm()
 	}
 	r.Finish()
 }
